@@ -84,8 +84,8 @@ def pickletools_codes():
 class C04:
     prop = "C04"
     lean_module = "Ogorek.Props.C04"
-    theorems = ["Ogorek.C04_no_panic", "Ogorek.C04_progress", "Ogorek.C04_steps_le_length", "Ogorek.C04_alloc",
-                "Ogorek.C04_opcode", "Ogorek.C04_proto", "Ogorek.C04_facts"]
+    theorems = ["Ogorek.C04_no_panic", "Ogorek.C04_consumes", "Ogorek.C04_progress", "Ogorek.C04_alloc",
+                "Ogorek.C04_alloc_payload", "Ogorek.C04_opcode", "Ogorek.C04_proto", "Ogorek.C04_facts"]
     trusted_base = TB_COMMON + ["Go runtime: real memory use and wall-clock are measured (TotalAlloc delta, timeouts), not proved"]
     rule = ("inputs: all 256 single opcode bytes (alone and followed by STOP), all 256 PROTO arguments, every length-prefixed "
             "opcode x huge lengths x {no payload, 1 byte, complete}, the repository fuzz corpus, seeded mutations/splices of it, "
@@ -173,6 +173,8 @@ class C04:
                 k = data[0]
                 if k not in codes and g != f"ERR opcode:{k}":
                     ctx.violate("a byte that is no pickle opcode is not reported as OpcodeError with that byte", line, f"ERR opcode:{k}", g)
+            if kind == "opcode" and len(data) == 1 and l == f"ERR opcode:{data[0]}" and g != l:
+                ctx.violate("an opcode byte the decoder does not implement is not reported as OpcodeError with that byte", line, l, g)
             m = re.match(r"ERR opcode:(\d+)", g)
             if m and kind == "opcode" and len(data) <= 2 and int(m.group(1)) != data[0]:
                 ctx.violate("OpcodeError carries the wrong byte", line, f"opcode:{data[0]}", g)
@@ -336,7 +338,7 @@ def shape_problems(rendered, cfg, allow_user):
 class C16:
     prop = "C16"
     lean_module = "Ogorek.Props.C16"
-    theorems = ["Ogorek.C16_step_preserves", "Ogorek.C16_result_wf", "Ogorek.C16_hook_args_wf"]
+    theorems = ["Ogorek.parseArg_insnOK", "Ogorek.C16_step_preserves", "Ogorek.C16_result_wf", "Ogorek.C16_hook_args_wf", "Ogorek.C16_resolved"]
     trusted_base = TB_COMMON
     rule = ("byte strings that decode successfully: fuzz corpus, mutations, generated programs, programs that place MARK under "
             "every consuming opcode; x 4 configurations x {no hook, replacing hook, nil hook}; the rendered result and every Ref "
